@@ -1390,5 +1390,9 @@ if __name__ == "__main__":
     src2v3_comp.main()
     import src2v3_crypto  # work package cryptoT: coq/gen/Src3g.v (aesgcm.rs, ecc.rs; fails closed per item)
     src2v3_crypto.main()
+    import src2v3_encw  # work package encW: coq/gen/Src3w.v (writer side of the encryption layer over the translated AesGcm256; fails closed per item)
+    src2v3_encw.main()
     import src2v3_header  # work package blockT/B: coq/gen/Src3h.v (ArchiveHeader::{from, dump}, bincode reader from the struct definitions; fails closed per item)
     src2v3_header.main()
+    import src2v3_cfg  # work package cfgT: coq/gen/Src3f.v (config.rs builders, the three from_config; fails closed per item)
+    src2v3_cfg.main()
